@@ -32,6 +32,7 @@ pub fn generate(r: &mut Rng, tier: Tier) -> Scenario {
         history: vec![],
         t2: None,
         content_faults: vec![],
+        expected_levels: std::collections::BTreeMap::new(),
         note: format!("gen={g:?} cut={c:?}"),
     }
 }
